@@ -69,6 +69,15 @@ def programs(tier, seed):
         (P2, ["and", ["p", "?y"]], ["and", ["forall", ["?z", "-", "t1"], ["when", ["q", "?x", "?z"], ["and", ["q", "?z", "?y"], ["not", ["q", "?x", "?z"]]]]]]),
         (P3, ["and", ["q", "?x", "?y"], ["<", ["f", "?x"], ["g"]]], ["and", ["decrease", ["g"], ["f", "?y"]], ["not", ["q", "?x", "?y"]]]),
         (P1, ["and", ["p", "?x"], ["q", "?x", "k"]], ["and", ["not", ["p", "?x"]], ["increase", ["f", "?x"], "2"]]),
+        # symmetric junctions: two members of one container that a swap / chain maps onto each other (every container kind)
+        (P2, ["and", ["p", "?x"], ["p", "?y"]], ["and", ["q", "?x", "?y"]]),
+        (P2, ["and", ["or", ["p", "?x"], ["p", "?y"]], ["not", ["q", "?x", "?y"]], ["not", ["q", "?y", "?x"]]],
+         ["and", ["p", "?x"], ["not", ["p", "?y"]], ["q", "?y", "?x"], ["not", ["q", "?x", "?y"]]]),
+        (P2, ["and", [">=", ["f", "?x"], "1"], [">=", ["f", "?y"], "1"]],
+         ["and", ["when", ["and", ["p", "?x"], ["p", "?y"]], ["and", ["q", "?x", "?y"]]], ["increase", ["f", "?x"], ["f", "?y"]],
+          ["decrease", ["f", "?y"], ["f", "?x"]]]),
+        (P2, ["and", ["forall", ["?z", "-", "t1"], ["or", ["q", "?z", "?x"], ["q", "?z", "?y"]]]],
+         ["and", ["forall", ["?z", "-", "t1"], ["when", ["and", ["q", "?x", "?z"], ["q", "?y", "?z"]], ["and", ["not", ["q", "?x", "?z"]]]]]]),
     ]
     for pl, pre, eff in fixed:
         out.append((pl, True, pre, eff))
